@@ -108,20 +108,23 @@ def check_reach(acc, ci):
     targets = [[10.0, 'rad'], [600.0, 'deg'], [1.5, 'rot'], [-2.0, 'rad']]
     brakes = [[2.0, 'rad'], [90.0, 'deg'], [3000.0, 'arcmin']]
     loads = [None, 0.0, 0.2, -0.1]                # motor load torque / Tmax (None = never computed)
-    for tgt, br, lf, j in itertools.product(targets, brakes, loads, range(n)):
+    # the target may be handed over as an Angle (a sub-kind of AngularPosition, e.g. the result of angle arithmetic)
+    combos = [(t, b, l, j, 'AngularPosition') for t, b, l, j in itertools.product(targets, brakes, loads, range(n))]
+    combos += [(t, b, l, j, 'Angle') for t, b, l, j in itertools.product(targets[:3], brakes, loads, range(n))]
+    for tgt, br, lf, j, tcls in combos:
         T = si.si(tgt[0], 'AngularPosition', tgt[1])
         B = si.si(br[0], 'Angle', br[1])
         err = 0.0 if lf is None else lf / eta * B
         ths = T - B + err
         for th, applicable in [(ths - 1e-6 * B - 1e-9, False), (ths + 1e-6 * B + 1e-9, True), (ths + 0.5 * B, True),
                                (ths + B, True), (ths + 3 * B, True), (ths - 5 * B, False)]:
-            case = {'kind': 'reach', 'chain': ci, 'target': tgt, 'brake': br, 'load_frac': lf, 'enc': j, 'theta': th}
+            case = {'kind': 'reach', 'chain': ci, 'target': tgt, 'brake': br, 'load_frac': lf, 'enc': j, 'theta': th, 'target_class': tcls}
             m = sim.Model(spec)
             # encoder target j must sit at theta `th`: set last element accordingly
             rh.set_state(m, chain, 0.0, th / chain.up[j], 0.0,
                          motor_load=None if lf is None else lf * chain.Tmax)
             rule = ReachAngularPosition(encoder=AbsoluteRotaryEncoder(m.elements[j]), powertrain=m.pt,
-                                        target_angular_position=AngularPosition(*tgt), braking_angle=Angle(*br))
+                                        target_angular_position=(Angle if tcls == 'Angle' else AngularPosition)(*tgt), braking_angle=Angle(*br))
             acc.transitions += 1
             try:
                 got = rule.apply()
@@ -132,7 +135,7 @@ def check_reach(acc, ci):
             acc.outcomes[('reach', applicable)] += 1
             exp = 1 - (th - ths) / B if applicable else None
             has_unlisted = any(spec['elements'][i]['k'] in ('Wg', 'F') and chain.etas[i] != 1.0 for i in range(1, n))
-            tag = 'eta-of-worm-slave' if (has_unlisted and lf not in (None, 0.0)) else 'plain'
+            tag = ('eta-of-worm-slave' if (has_unlisted and lf not in (None, 0.0)) else 'plain') + ('/target-given-as-Angle' if tcls == 'Angle' else '')
             if (got is None) != (exp is None):
                 acc.violation(f'C15/ReachAngularPosition/window/{tag}', 'applicable once theta >= theta_s = target - theta_b + static error', case,
                               {'got': got, 'expected': exp, 'theta_s': ths})
@@ -171,7 +174,8 @@ def check_prop_variant(acc, ci, i0_zero, pmin):
             rh.set_state(m, chain, 0.0, th / chain.up[j], 0.0, motor_load=lf * chain.Tmax)
             kw = {} if pmin is None else {'pwm_min': pmin}
             rule = StartProportionalToAngularPosition(encoder=AbsoluteRotaryEncoder(m.elements[j]), powertrain=m.pt,
-                                                      target_angular_position=AngularPosition(*tgt),
+                                                      # (for one multiplier the target is handed over as an Angle, a sub-kind)
+                                                      target_angular_position=(Angle if g == 3.5 else AngularPosition)(*tgt),
                                                       pwm_min_multiplier=g, **kw)
             acc.transitions += 1
             try:
@@ -229,7 +233,7 @@ def check_limit(acc, ci):
             rh.set_state(m, chain, 0.0, th / chain.up[j], w_m / chain.up[0])
             motor = m.elements[0]
             rule = StartLimitCurrent(encoder=AbsoluteRotaryEncoder(m.elements[j]), tachometer=Tachometer(motor), motor=motor,
-                                     target_angular_position=AngularPosition(T, 'rad'),
+                                     target_angular_position=(Angle if cu == 'mA' else AngularPosition)(T, 'rad'),
                                      limit_electric_current=Current(si.convert(ilim, 'Current', 'A', cu), cu))
             acc.transitions += 1
             try:
